@@ -16,6 +16,8 @@ let action_of = function
   | "helpshort" -> Cmd.AHelpShort | "helplong" -> Cmd.AHelpLong | "version" -> Cmd.AVersion
   | x -> failwith ("action " ^ x)
 
+let vis (args : Sx.t list) = match args with [_; Sx.Sym "v"] -> true | _ -> false
+
 let build_arg (items : Sx.t list) : UsageModel.harg =
   let open UsageModel in
   let id = bs (hd items) in
@@ -40,6 +42,7 @@ let build_arg (items : Sx.t list) : UsageModel.harg =
         | "last" -> a := { !a with ha_last = true }
         | "reqeq" -> a := { !a with ha_req_eq = true }
         | "hide" -> a := { !a with ha_hide = true }
+        | "global" -> a := { !a with ha_global = true }
         | x -> failwith ("help area: unsupported arg flag " ^ x)) args
     | "help" | "x-help" -> a := { !a with ha_help = Some (bs (hd args)) }
     | "x-long-help" -> a := { !a with ha_long_help = Some (bs (hd args)) }
@@ -51,6 +54,16 @@ let build_arg (items : Sx.t list) : UsageModel.harg =
     | "x-next-line" -> a := { !a with ha_next_line = true }
     | "x-order" -> a := { !a with ha_disp_ord = Some (n (hd args)) }
     | "x-valname" -> a := { !a with ha_valnames = !a.ha_valnames @ Stdlib.List.map bs args }
+    | "alias" -> a := { !a with ha_aliases = !a.ha_aliases @ [(bs (hd args), vis args)] }
+    | "salias" -> a := { !a with ha_short_aliases = !a.ha_short_aliases @ [(n (hd args), vis args)] }
+    | "default" -> a := { !a with ha_defaults = Stdlib.List.map bs args }
+    | "env" -> (match args with
+        | [nm; v] -> a := { !a with ha_env = Some (bs nm, Some (bs v)) }
+        | [nm] -> a := { !a with ha_env = Some (bs nm, None) }
+        | _ -> failwith "env item")
+    | "x-hide-env" -> a := { !a with ha_hide_env = true }
+    | "x-hide-env-values" -> a := { !a with ha_hide_env_values = true }
+    | "x-hide-default" -> a := { !a with ha_hide_default = true }
     | "x-pv" ->
       let pv = ref { pv_name = bs (hd args); pv_help = None; pv_hide = false } in
       Stdlib.List.iter (fun e -> match e with
@@ -95,12 +108,12 @@ let dw (s : BinNums.coq_N list) = UsageModel.len s
 
 let toks (l : BinNums.coq_N list list) = String.concat " " (Stdlib.List.map hex l)
 
-(* split on spaces, dropping empty pieces *)
+(* split on spaces (and newlines), dropping empty pieces *)
 let split_sp (s : BinNums.coq_N list) : BinNums.coq_N list list =
   let ints = ints_of_bs s in
   let out = ref [] and cur = ref [] in
   let flush () = if !cur <> [] then (out := Stdlib.List.rev !cur :: !out; cur := []) in
-  Stdlib.List.iter (fun c -> if c = 32 then flush () else cur := c :: !cur) ints;
+  Stdlib.List.iter (fun c -> if c = 32 || c = 10 then flush () else cur := c :: !cur) ints;
   flush ();
   Stdlib.List.map bs_of_ints (Stdlib.List.rev !out)
 
@@ -110,7 +123,7 @@ let show_usage (pieces : BinNums.coq_N list list) =
 let show_row (r : HelpModel.row) =
   let open HelpModel in
   let col = if r.r_nl then "nl" else Z.to_string (z_of_n (row_col r)) in
-  Printf.sprintf "(row %s %s (pv %s))" (hex (row_key r.r_left)) col (toks r.r_pvs)
+  Printf.sprintf "(row %s %s (pv %s) (spec %s))" (hex (row_key r.r_left)) col (toks r.r_pvs) (toks (split_sp r.r_spec))
 
 let show_screen (s : HelpModel.screen) =
   let open HelpModel in
